@@ -345,3 +345,20 @@ for _p, _t in {
  'C20': ' An in-place proxy operator is one request; proxy methods forward their own arguments unchanged.',
 }.items():
     ADDED[_p] = ADDED.get(_p, '') + _t
+
+# round 7 (DESIGN.md section 21)
+for _p, _t in {
+ 'C01': ' No handle re-binds the position of an outcome; a failure of the task sequence is filed past the last sent part; '
+        'the owner lists of a map job are per item; close() flags only the supervisor.',
+ 'C04': ' shrink() lowers the configured size once per worker it retires.',
+ 'C08': ' The completed counter moves only after the result was sent.',
+ 'C09': ' The sys.exit wrapper records every status; the consumed-results wait is left early only when everything was '
+        'counted; a new worker is registered before the user hook.',
+ 'C12': ' No picklable stand-in has a catch-all attribute hook.',
+ 'C16': ' Only the feeder touches the write end of a Queue; JoinableQueue.put counts under the buffer lock; a waiter is '
+        'counted as sleeping before it releases the lock.',
+ 'C19': ' poll()/wait() of the launchers are not serialised by a lock; the fork-server status pipe has exactly two readers.',
+ 'C20': ' The referent call has its own Exception -> #ERROR handler and #RETURN carries its result; wait_for re-evaluates '
+        'the predicate after every wait.',
+}.items():
+    ADDED[_p] = ADDED.get(_p, '') + _t
